@@ -138,6 +138,7 @@ def run_property(spec, tier, seed):
             kinds[c.kind] = kinds.get(c.kind, 0) + 1
             il = st.canon(impl[i]) if st.canon else impl[i]
             c.meta["impl"] = il            # known_class may look at what the implementation answered
+            c.meta["impl_raw"] = impl[i]
             ml = None if model is None else (st.canon(model[i]) if st.canon else model[i])
             if st.nontrivial is None or st.nontrivial(c, il):
                 seen_nontrivial.add((st.name, c.rust))
